@@ -61,7 +61,7 @@ func main() {
 		rep, hit := decodeWitnessSearch(st, os.Args[2], os.Args[3])
 		fmt.Println(rep, hit)
 	case "probes": // verif probes <repo>: run every replay probe; on a tree where the properties hold none may report a hit
-		_, st, err := setup(os.Args[2])
+		u, st, err := setup(os.Args[2])
 		if err != nil {
 			fmt.Println(err)
 			os.Exit(2)
@@ -82,6 +82,11 @@ func main() {
 		run("purity report", func() (string, bool) { return purityProbe(repo, "v3/report") })
 		run("template", func() (string, bool) { return templateProbe(repo) })
 		run("report", func() (string, bool) { return reportProbe(st, repo) })
+		run("score v3", func() (string, bool) { return scoreProbe(u, st, repo) })
+		run("score v2", func() (string, bool) { return v2ScoreProbe(u, st, repo) })
+		run("robust v3", func() (string, bool) { return robustProbe(repo, "v3/metric") })
+		run("robust v2", func() (string, bool) { return robustProbe(repo, "v2/metric") })
+		run("names", func() (string, bool) { return namesProbe(u, repo) })
 		run("sentinels", func() (string, bool) { return sentinelProbe(repo) })
 		run("race", func() (string, bool) { return raceReplay(repo) })
 		fmt.Printf("probes with a hit: %d\n", bad)
